@@ -94,6 +94,8 @@ type Fixture struct {
 	MK8 map[int8]uint16
 	MKU map[uint16]int64
 	PM  *map[string]int32 // pointer-injected map
+	PMI *map[int64]int64  // pointer-injected map with integer keys
+	PMS *map[string]string
 	PS  *[]int64          // pointer-injected slice
 	PSU *[]uint16
 	PSF *[]float32
@@ -201,6 +203,10 @@ func NewFixture(seed int64) *Fixture {
 	f.MKU = map[uint16]int64{0: 4, 9: pickI(r, 64)}
 	pm := map[string]int32{"a": int32(pickI(r, 32)), "b": 2}
 	f.PM = &pm
+	pmi := map[int64]int64{1: pickI(r, 64), -2: 22, 300: pickI(r, 64)}
+	f.PMI = &pmi
+	pms := map[string]string{"a": "alpha", "b": StrPool[r.Intn(len(StrPool))]}
+	f.PMS = &pms
 	ps := []int64{pickI(r, 64), pickI(r, 64), 3, 4, 5}
 	f.PS = &ps
 	psu := []uint16{uint16(pickU(r, 16)), 1, 2}
@@ -228,7 +234,7 @@ func (f *Fixture) Table() map[string]interface{} {
 	t := map[string]interface{}{
 		"H": f.H, "V": f.V,
 		"M64": f.M64, "MU8": f.MU8, "MF": f.MF, "MIK": f.MIK, "MK8": f.MK8, "MKU": f.MKU,
-		"PM": f.PM, "PS": f.PS, "PSU": f.PSU, "PSF": f.PSF, "PA": f.PA, "VS": f.VS, "VSS": f.VSS, "VA": f.VA,
+		"PM": f.PM, "PMI": f.PMI, "PMS": f.PMS, "PS": f.PS, "PSU": f.PSU, "PSF": f.PSF, "PA": f.PA, "VS": f.VS, "VSS": f.VSS, "VA": f.VA,
 		"NI": f.NI, "NI8": f.NI8, "NI16": f.NI16, "NI32": f.NI32, "NI64": f.NI64,
 		"NU": f.NU, "NU8": f.NU8, "NU16": f.NU16, "NU32": f.NU32, "NU64": f.NU64,
 		"NF32": f.NF32, "NF64": f.NF64, "NS": f.NS, "NB": f.NB,
@@ -242,6 +248,7 @@ func (f *Fixture) Table() map[string]interface{} {
 		"tu": func(id int64, a uint8, b uint32, c int, d uint) uint64 { rec.add(id, a, b, c, d); return uint64(b) },
 		"t16": func(id int64, a int16, b int32) int32 { rec.add(id, a, b); return b },
 		"idn": func(v int64) int64 { return v },
+		"ix1": int64(1),
 	}
 	return t
 }
@@ -258,6 +265,8 @@ type State struct {
 	MK8  map[int8]uint16
 	MKU  map[uint16]int64
 	PM   map[string]int32
+	PMI  map[int64]int64
+	PMS  map[string]string
 	PS   []int64
 	PSU  []uint16
 	PSF  []float32
@@ -279,7 +288,7 @@ func (f *Fixture) State() State {
 	h.rec = nil
 	pn := *f.H.Pn
 	h.Pn = nil
-	return State{H: h, HPn: pn, M64: f.M64, MU8: f.MU8, MF: f.MF, MIK: f.MIK, MK8: f.MK8, MKU: f.MKU, PM: *f.PM, PS: *f.PS, PSU: *f.PSU, PSF: *f.PSF,
+	return State{H: h, HPn: pn, M64: f.M64, MU8: f.MU8, MF: f.MF, MIK: f.MIK, MK8: f.MK8, MKU: f.MKU, PM: *f.PM, PMI: *f.PMI, PMS: *f.PMS, PS: *f.PS, PSU: *f.PSU, PSF: *f.PSF,
 		PA: *f.PA, VS: f.VS, VSS: f.VSS, PI8: *f.PI8, PI64: *f.PI64, PU16: *f.PU16, PU64: *f.PU64, PF32: *f.PF32, PF64: *f.PF64, PStr: *f.PStr, PB: *f.PB}
 }
 
